@@ -31,7 +31,10 @@ import irfacts  # noqa: E402
 import treegen  # noqa: E402
 
 GEN = os.path.join(LEAN, "LlgoVerif", "Gen", "C12Facts.lean")
-CORPUS_SEEDS = [19, 6, 14]     # boundary trees that always run first: sync/atomic in main with &cnt dependency; 4 unreachable packages; 2 packages
+# packages for which llgo emits no initialiser call (cl/import.go pkgKindByPath) - hard-coded HERE on purpose: what an import
+# needs is judged against go list's import set, not against llgo's own table
+NOINIT = {"unsafe", "runtime/cgo"}
+STD_OBSERVABLE = ["math/bits", "unicode/utf8"]
 
 
 def _run(cmd, cwd, env, timeout=1800):
@@ -98,7 +101,9 @@ def has_initialiser(ctx, path, dirpath):
 
 def go_list_imports(ctx, pkgs, cwd, env):
     """-> {importpath: (dir, [imports])}"""
-    p = _run(["go", "list", "-e", "-tags", "nogc", "-f", "{{.ImportPath}}\t{{.Dir}}\t{{join .Imports \",\"}}"] + list(pkgs), cwd, env)
+    flags = [x for x in pkgs if x.startswith("-")]
+    pkgs = [x for x in pkgs if not x.startswith("-")]
+    p = _run(["go", "list", "-e", "-tags", "nogc"] + flags + ["-f", "{{.ImportPath}}\t{{.Dir}}\t{{join .Imports \",\"}}"] + list(pkgs), cwd, env)
     out = {}
     for line in p.stdout.split("\n"):
         f = line.split("\t")
@@ -126,17 +131,20 @@ def projections(t, lines):
 
 
 def model_line(t, mode, calls=None):
-    """request for modeld_c12.  model numbering: 0 = llgo runtime, 1 = sync/atomic (if imported), then the tree"""
-    off = 2 if t.atomic else 1
+    """request for modeld_c12.  model numbering: 0 = llgo runtime, then the std packages the tree imports (sync/atomic is a
+    chained patched package; their bodies print nothing), then the tree's packages"""
+    std = list(t.stdpkgs)
+    off = 1 + len(std)
     ids = {p.path: p.id + off for p in t.pkgs}
-    ids["sync/atomic"] = 1
-    specs = ["-"] + (["-/c/-"] if t.atomic else [])
+    for i, sp in enumerate(std):
+        ids[sp] = 1 + i
+    specs = ["-"] + ["-/c/-" if sp == "sync/atomic" else "-" for sp in std]
     for p in t.pkgs:
         imps = [str(ids[x]) for x in t.imports_order[p.id]]
         specs.append(",".join(imps) if imps else "-")
     if mode == "exe":
         return "exe %d 0 0 %s" % (len(t.pkgs) - 1 + off, " ".join(specs)), off
-    return "host %s %s" % (",".join(str(c + off) for c in calls), " ".join(specs)), off
+    return "host %s %s" % (",".join(["0"] + [str(c + off) for c in calls]), " ".join(specs)), off      # the host calls llgo's runtime init first
 
 
 def expand(events, off, bodies, main_lines):
@@ -176,11 +184,17 @@ def judge(t, real, oracle, called=None):
             if not want and got:
                 return "unreachable-ran", "package %s is not reachable from the called initialisers but ran: %s" % (p.path, got[:4])
             if sorted(got) != sorted(want):
-                more = [l for l in got if got.count(l) > want.count(l)]
+                labs = lambda ls: [l.split(" ")[0] for l in ls]
+                if sorted(labs(got)) == sorted(labs(want)):
+                    wv = dict((l.split(" ")[0], l) for l in want)
+                    l = [l for l in got if wv[l.split(" ")[0]] != l][0]
+                    return "wrong-value", ("package %s: %r, reference %r - something the initialiser reads (a package-level variable of an import, "
+                                           "a table of a std package such as math/bits) was not initialised when it ran" % (p.path, l, wv[l.split(" ")[0]]))
+                more = [l for l in labs(got) if labs(got).count(l) > labs(want).count(l)]
                 if more:
-                    return "ran-twice", "package %s: %r printed %d times, reference %d" % (p.path, more[0], got.count(more[0]), want.count(more[0]))
-                missing = [l for l in want if got.count(l) < want.count(l)]
-                return "not-run-or-wrong-value", "package %s: %r missing (an initialiser did not run, or ran before its dependencies: the value differs); got %s" % (p.path, missing[0], got[:6])
+                    return "ran-twice", "package %s: %r printed %d times, reference %d" % (p.path, more[0], labs(got).count(more[0]), labs(want).count(more[0]))
+                missing = [l for l in want if labs(got).count(l.split(" ")[0]) < labs(want).count(l.split(" ")[0])]
+                return "not-run", "package %s: %r missing - the package was not (completely) initialised; got %s" % (p.path, missing[0], got[:6])
             return "order-in-package", "package %s: variables / init functions run in the order %s, reference %s" % (p.path, got, want)
     # every package's lines contiguous, and after the lines of every import
     first, last = {}, {}
@@ -293,20 +307,32 @@ def run(ctx, args):
     # ------------------------------------------------------------------ trees
     n_facts, n_o0, n_o2, n_arch = (2, 5, 2, 1) if quick else (6, 24, 6, 2)
     if os.environ.get("VERIF_C12_SMALL"):      # debugging aid (mutation experiments on a loaded machine): not a tier
-        n_facts, n_o0, n_o2, n_arch = 1, 2, 0, 0
+        n_facts, n_o0, n_o2, n_arch = 2, 2, 0, 0
+    L = treegen.LAYOUTS
     bf, be, bo = Batch(ctx, work, "c12f", "facts"), Batch(ctx, work, "c12e", "O0"), Batch(ctx, work, "c12o", "O2")
-    for i in range(n_facts):      # compiled with -gen-llfiles: no sync/atomic (see the note below)
-        bf.add(rng, npk=[8, 4, 3][i] if i < 3 else None, atomic=False)
-    for s in CORPUS_SEEDS:
-        be.add(random.Random(s))
-    for i in range(max(0, n_o0 - len(CORPUS_SEEDS))):
-        be.add(rng, atomic=(True if i == 0 else None))
+    # boundary trees (fixed structure, fixed seeds) always run first: work-free packages at 1, 2 and 3 consecutive levels above
+    # packages with observable initialisation, inside diamonds, packages and std packages reachable only through them
+    fixed_f = [("mixed", 101), ("chain3", 102)]                                   # compiled with -gen-llfiles: no sync/atomic
+    fixed_e = [("chain12", 103), ("wfdiamond", 104), ("stddirect", 105)]
+    for i in range(n_facts):
+        if i < len(fixed_f):
+            bf.add(random.Random(fixed_f[i][1]), layout=L[fixed_f[i][0]], atomic=False)
+        else:
+            bf.add(rng, atomic=False, std=STD_OBSERVABLE)
+    for i in range(n_o0):
+        if i < len(fixed_e):
+            be.add(random.Random(fixed_e[i][1]), layout=L[fixed_e[i][0]], atomic=(fixed_e[i][0] == "stddirect"))
+        else:
+            be.add(rng, atomic=(True if i == len(fixed_e) else None), std=STD_OBSERVABLE if i % 2 else [])
     for i in range(n_o2):
-        bo.add(rng, npk=rng.randint(5, 8))
+        if i == 0:
+            bo.add(rng, layout=L["chain3"], atomic=False)
+        else:
+            bo.add(rng, npk=rng.randint(5, 8), std=STD_OBSERVABLE)
     archs = []
     for i in range(n_arch):
         ba = Batch(ctx, work, "c12a%d" % i, "arch")
-        ba.add(rng, npk=rng.randint(4, 7), atomic=(i % 2 == 1))
+        ba.add(rng, npk=rng.randint(4, 7), atomic=(i % 2 == 1), std=STD_OBSERVABLE if i % 2 == 0 else [])
         archs.append(ba)
 
     # ------------------------------------------------------------------ tie A, part 1: the patched std package
@@ -390,10 +416,17 @@ def run(ctx, args):
             b.reference()
             b.build(env, opt, genll)
             ctx.log("batch %s: %d trees, %s%s" % (b.mod, len(b.recs), opt, " -gen-llfiles" if genll else ""))
+    std_done = set()
     for r in bf.recs:
         t = r["tree"]
-        gl = go_list_imports(ctx, ["./" + r["short"] + "/..."], bf.dir, env)
-        ids = {p.path: p.id for p in t.pkgs}
+        if r.get("build_rc", 1) != 0:
+            continue
+        # the import set of EVERY package of the program (tree and std) is go list's; the expected order is go/types'
+        gl = go_list_imports(ctx, ["-deps", "./" + r["short"]], bf.dir, env)
+        stdp = [x for x in t.stdpkgs if x not in NOINIT]
+        ids = {sp: i for i, sp in enumerate(stdp)}
+        for pk in t.pkgs:
+            ids[pk.path] = pk.id + len(stdp)
         for pk in t.pkgs:
             if pk.id not in t.reachable:
                 continue
@@ -402,8 +435,20 @@ def run(ctx, args):
             if toks is None:
                 diag.append("%s: no IR / no init function found" % pk.path)
                 toks = []
-            golist = [x for x in gl.get(pk.path, ("", []))[1] if x != "unsafe"]
-            add_fact(pk.path + ".init", pk.id, toks, t.imports_order[pk.id], golist, ids)
+            golist = [x for x in gl.get(pk.path, ("", []))[1] if x not in NOINIT]
+            add_fact(pk.path + ".init" + (" (work-free package)" if pk.workfree else ""), ids[pk.path], toks, t.imports_order[pk.id], golist, ids)
+        for sp in stdp:       # std packages llgo compiles from source: their own initialiser, imports as go list reports them
+            if sp in std_done:
+                continue
+            std_done.add(sp)
+            ll = idx.find(sp)
+            toks = irfacts.init_tokens(open(ll, errors="replace").read(), sp) if ll else None
+            if toks is None:
+                diag.append("%s: no IR / no init function found" % sp)
+                toks = []
+            golist = [x for x in gl.get(sp, ("", []))[1] if x not in NOINIT]
+            sids = {x: i for i, x in enumerate(sorted(golist))}
+            add_fact(sp + ".init (std package compiled by llgo)", len(sids), toks, sorted(golist), golist, sids)
         ll = idx.find(t.mod + ".main")
         et = irfacts.entry_tokens(open(ll, errors="replace").read(), t.mod) if ll else None
         if et is None:
@@ -466,13 +511,21 @@ def run(ctx, args):
 
     # ------------------------------------------------------------------ tie E: traces
     n_eval, n_lines, mismatches, spec_fail, indep_order = 0, 0, [], 0, 0
-    stats = {"trees": len(results), "packages": 0, "with_sync_atomic": 0, "with_unreachable": 0, "diamonds": 0, "modes": {}}
+    stats = {"trees": len(results), "packages": 0, "work_free_packages": 0, "max_consecutive_work_free": 0, "with_sync_atomic": 0, "with_math_bits": 0,
+             "with_unicode_utf8": 0, "with_unreachable": 0, "diamonds": 0, "modes": {}}
     samples = []
     spec_gen_mismatch = 0
     for rec in results:
         t, mode, name = rec["tree"], rec["mode"], rec["name"]
         stats["packages"] += len(t.pkgs)
         stats["with_sync_atomic"] += 1 if t.atomic else 0
+        stats["with_math_bits"] += 1 if "math/bits" in t.stdpkgs else 0
+        stats["with_unicode_utf8"] += 1 if "unicode/utf8" in t.stdpkgs else 0
+        stats["work_free_packages"] += sum(1 for pk in t.pkgs if pk.workfree and pk.id in t.reachable)
+        run_len = {}
+        for pk in t.pkgs:       # longest chain of consecutive work-free packages ending at pk (topological order)
+            run_len[pk.id] = (1 + max([run_len[q] for q in pk.deps] + [0])) if pk.workfree else 0
+        stats["max_consecutive_work_free"] = max([stats["max_consecutive_work_free"]] + [v for k_, v in run_len.items() if k_ in t.reachable])
         stats["with_unreachable"] += 1 if len(t.reachable) < len(t.pkgs) else 0
         imported_by = {}
         for pk in t.pkgs:
@@ -498,7 +551,7 @@ def run(ctx, args):
         real = rec.get("real", [])
         replay["llgo_trace"] = real
         if mode == "arch":
-            line, off = model_line(t, "host", [-(2 if t.atomic else 1)] + rec["calls"])   # the host calls llgo's runtime init first (model package 0)
+            line, off = model_line(t, "host", rec["calls"])
             replay["host_calls"] = [t.pkgs[c].path for c in rec["calls"]]
         else:
             line, off = model_line(t, "exe")
